@@ -5,7 +5,7 @@ Model/Unicode.v (uc_table)."""
 import progs
 
 RULES = progs.RULES
-# ---- panic triggers ---------------------------------------------------------------------------
+# ---- edge constructs (panic triggers of the unchanged tree; the front-end ones are fixed in /repo) -----------
 TYPE_TRIGGERS = ['Vec', 'Option', 'HashMap', 'HashMap<String>', 'Box', 'Arc', 'Rc', 'Cow', 'Weak', 'Cell', 'RefCell', 'Mutex', 'RwLock',
                  'ArcWeak', 'RcWeak', "Cow<'static>", 'Vec<>', 'std::vec::Vec', 'Option<3>', "HashMap<'a, String>", 'HashMap<String,>',
                  'std::collections::HashMap', '::std::option::Option', 'Box<{ 1 }>']
@@ -246,6 +246,40 @@ def planted_cases(rng, n):
         out.append({'name': f'plant:{d["how"]}', 'kind': 'plant', 'src': progs.source(prog), 'tos': d['tos'], 'deep': 0,
                     'desc': d['where'] + (' [skipped]' if d['skipped'] else '')})
     return out
+
+
+# ---- witnesses of the findings fixed in /repo ---------------------------------------------------------------
+# (finding id, source, expected end of the run: 'diag' = exit 1 with a diagnostic naming the file, 'ok' = exit 0 with output,
+#  language configurations it is about: None = all seven)
+FIXED_WITNESSES = [
+    ('C07-parser.rs:287', '#[typeshare]\nstruct S();\n', 'diag', None),
+    ('C07-parser.rs:287', '#[typeshare]\npub struct Wrapper<T>();\n#[typeshare]\nstruct Good { a: u8 }\n', 'diag', None),
+    ('C07-parser.rs:445', '#[typeshare]\n#[serde(tag = "t", content = "c")]\nenum E { V() }\n', 'diag', None),
+    ('C07-parser.rs:445', '#[typeshare]\nenum E { A, V() }\n', 'diag', None),
+    ('C07-parser.rs:737', '#[typeshare]\nstruct S { #[typeshare(foo(bar))] a: u8 }\n', 'ok', None),
+    ('C07-parser.rs:737', '#[typeshare]\n#[serde(tag = "t", content = "c")]\nenum E { V { #[typeshare(cobol(x), swift(type = "Int"))] a: u8 } }\n', 'ok', None),
+    ('C07-rust_types.rs:366', '#[typeshare]\nstruct S { a: Vec }\n', 'diag', None),
+    ('C07-rust_types.rs:366', '#[typeshare]\ntype A = Option<std::vec::Vec<3>>;\n', 'diag', None),
+    ('C07-rust_types.rs:369', '#[typeshare]\nstruct S { a: Option }\n', 'diag', None),
+    ('C07-rust_types.rs:374', '#[typeshare]\nstruct S { a: HashMap }\n', 'diag', None),
+    ('C07-rust_types.rs:375', '#[typeshare]\nstruct S { a: HashMap<String> }\n', 'diag', None),
+    ('C07-rust_types.rs:383', '#[typeshare]\nstruct S { a: Box }\n', 'diag', None),
+    ('C07-rust_types.rs:383', "#[typeshare]\nstruct S { #[typeshare(serialized_as = \"Cow<'static>\")] a: u8 }\n", 'diag', None),
+    ('C07-rename.rs:22', '#[typeshare]\n#[serde(rename_all = "camelCase")]\nstruct S { __: u8 }\n', 'ok', None),
+    ('C07-rename.rs:22', '#[typeshare]\n#[serde(rename_all = "camelCase")]\nstruct S { étoile: u8 }\n', 'ok', None),
+    ('C07-rename.rs:22', '#[typeshare]\n#[serde(rename_all = "camelCase")]\nenum E { Étoile, __ }\n', 'ok', ['typescript', 'kotlin', 'scala', 'go', 'python', 'swift']),
+    ('C07-swift.rs:559', '#[typeshare]\nenum E { Étoile, B }\n', 'ok', ['swift']),
+    ('C07-swift.rs:559', '#[typeshare]\nenum E { __, B }\n', 'ok', ['swift']),
+    ('C07-swift.rs:559', '#[typeshare]\n#[serde(tag = "t", content = "c")]\nenum E { Étoile(u8), __ { a: u8 } }\n', 'ok', ['swift']),
+    ('C07-go.rs:313', '#[typeshare]\n#[serde(tag = "t", content = "")]\nenum E { V(u8) }\n', 'ok', ['go']),
+    ('C07-go.rs:313', '#[typeshare]\n#[serde(tag = "t", content = "_")]\nenum E { V(u8) }\n', 'ok', ['go']),
+    ('C07-go.rs:313', '#[typeshare]\n#[serde(tag = "t", content = "été")]\nenum E { V(u8) }\n', 'ok', ['go']),
+]
+
+
+def fixed_witness_cases():
+    return [{'name': f'fixed:{fid}', 'kind': 'fixed', 'src': src, 'tos': [], 'deep': 0, 'desc': f'witness of the fixed finding {fid}',
+             'fixed': fid, 'expect': expect, 'langs': langs} for fid, src, expect, langs in FIXED_WITNESSES]
 
 
 # ---- hand-written edge programs ---------------------------------------------------------------------------
